@@ -9,7 +9,7 @@ from .wfutil import WF, run
 
 PID = "C08"
 PROPS_FILE = "props/C08.v"
-MODEL_TARGETS = ["model/Claims.vo"]
+MODEL_TARGETS = ["model/Claims.vo", "model/GlobRows.vo"]
 RULE = ("E2c: request sequences (1-6 requests of declare_static_files / register_static_tree / register_nglob / "
         "define_step / amend_step, each in its own transaction on a real Workflow over in-memory SQLite with a "
         "RUNNING plan step and RUNNING steps A, B, C as creators) and every ordered pair of request kinds "
@@ -780,6 +780,8 @@ def _collect(ctx):
 
 
 def correspondence(ctx):
+    from . import c08_rows
+    c08_rows.correspondence(ctx)
     seq_results, pair_results = _collect(ctx)
     checks, descr = [], []
     for reqs, outcomes, final in seq_results:
@@ -807,7 +809,7 @@ def correspondence(ctx):
     for i in bad:
         reqs, outcomes, final = descr[i]
         sig = "E2c:" + "+".join(sorted({kind_of(r) for r in reqs}))[:80]
-        if len(shown) >= 5:
+        if len(shown) >= 3:     # leave room for the oracle's signatures among the first five
             break
         if sig in shown:
             continue
@@ -924,7 +926,10 @@ def replay(ctx, obj):
     f = obj["failure"]
     w = f.get("witness") or {}
     print("replaying", f.get("signature"))
-    if "requests" in w:
+    if "row_ops" in w:
+        from . import c08_rows
+        c08_rows.replay(ctx, w)
+    elif "requests" in w:
         reqs = [tuple(r) for r in w["requests"]]
         outcomes, final, trunc, _ = run(execute(reqs))
         print(" requests:", reqs)
